@@ -232,6 +232,57 @@ static InstResult filtering_walk() {
 	return r;
 }
 
+// Deep and wide trees that the subset exploration (<= 3-4 keys) cannot build: (a) a path without any compression - sixteen
+// keys that each share one more nibble with key 0, so that there is an inner node at every depth 0..14 above the leaf -
+// inserted in ascending, descending and two interleaved orders; (b) sparse sets in which leaves hang several levels below
+// their parent; (c) all sixteen slots of a leaf and of an inner node.  After every insert and every erase: find for every
+// key of the set and for absent neighbours (one nibble changed at every position), iteration against the reference map.
+static InstResult deep_trees() {
+	InstResult r; r.name = "radix-deep-and-wide"; r.complete = true;
+	using TT = frg::rcu_radixtree<uint64_t, BumpAlloc>;
+	std::vector<std::vector<uint64_t>> sets;
+	{ std::vector<uint64_t> a = {0}; for(int sh = 60; sh >= 4; sh -= 4) a.push_back(uint64_t(1) << sh); sets.push_back(a); }
+	{ std::vector<uint64_t> a = {~uint64_t(0)}; for(int sh = 60; sh >= 4; sh -= 4) a.push_back(~uint64_t(0) ^ (uint64_t(0xF) << sh)); sets.push_back(a); }
+	sets.push_back({0x5, 0x500, 0x1F0, 0x900, 0x90000, 0xF00000000ull, 0x123456789ABCDEFull, 0x8000000000000000ull, ~uint64_t(0)});
+	{ std::vector<uint64_t> a; for(uint64_t i = 0; i < 16; i++) a.push_back(0x7000 + i); for(uint64_t i = 0; i < 16; i++) a.push_back(0x7000 + (i << 4) + 0xF); sets.push_back(a); }
+	{ std::vector<uint64_t> a; for(uint64_t i = 0; i < 16; i++) a.push_back(i << 60 | 0xF); sets.push_back(a); }
+	for(size_t si = 0; si < sets.size(); si++) for(int order = 0; order < 4; order++) {
+		std::vector<uint64_t> ks = sets[si];
+		std::sort(ks.begin(), ks.end()); ks.erase(std::unique(ks.begin(), ks.end()), ks.end());
+		if(order == 1) std::reverse(ks.begin(), ks.end());
+		if(order == 2) { std::vector<uint64_t> o; for(size_t i = 0; i < ks.size(); i += 2) o.push_back(ks[i]); for(size_t i = 1; i < ks.size(); i += 2) o.push_back(ks[i]); ks = o; }
+		if(order == 3) { std::vector<uint64_t> o; for(size_t i = 0, j = ks.size(); i < j;) { o.push_back(ks[i++]); if(i < j) o.push_back(ks[--j]); } ks = o; }
+		std::string h = "key set " + std::to_string(si) + ", insertion order " + std::to_string(order);
+		try {
+			world_reset(); arena_top = 0; pending().reset();
+			TT t{BumpAlloc{}};
+			std::map<uint64_t, uint64_t *> ref;
+			auto check = [&](const std::string &when) {
+				for(uint64_t k : sets[si]) {
+					uint64_t *p = t.find(k); auto it = ref.find(k);
+					if(it == ref.end() ? p != nullptr : p != it->second) { char b[128]; snprintf(b, sizeof b, "find(%llx) %s", (unsigned long long)k, it == ref.end() ? "finds an absent key" : p ? "returns another address than insert did" : "does not find a present key"); throw Violation{"C09", "radix:deep:find", when + ": " + b}; }
+					if(p && *p != k) throw Violation{"C09", "radix:deep:value", when + ": the value found under a key is not the one stored there"};
+					for(int sh = 0; sh < 64; sh += 4) { uint64_t n = k ^ (uint64_t(1) << sh); if(!ref.count(n) && t.find(n)) { char b[96]; snprintf(b, sizeof b, "find(%llx) finds a key that was never inserted", (unsigned long long)n); throw Violation{"C09", "radix:deep:find-absent", when + ": " + b}; } }
+					r.evaluations++;
+				}
+				std::vector<uint64_t> seen; size_t guard = 0;
+				for(auto it = t.begin(); it != t.end(); ++it) { if(++guard > ref.size() + 2) break; seen.push_back(*it); }
+				std::vector<uint64_t> want; for(auto &kv : ref) want.push_back(kv.first);
+				if(seen != want) throw Violation{"C09", "radix:deep:iteration", when + ": iteration visits " + std::to_string(seen.size()) + " keys (or not in ascending order), the reference holds " + std::to_string(want.size())};
+			};
+			for(uint64_t k : ks) { uint64_t *p = t.insert(k, k); ref[k] = p; char b[48]; snprintf(b, sizeof b, "after insert(%llx)", (unsigned long long)k); check(b); }
+			for(size_t i = 0; i < ks.size(); i += 2) { t.erase(ks[i]); ref.erase(ks[i]); char b[48]; snprintf(b, sizeof b, "after erase(%llx)", (unsigned long long)ks[i]); check(b); }
+			for(size_t i = 0; i < ks.size(); i += 4) { uint64_t *p = t.insert(ks[i], ks[i]); ref[ks[i]] = p; check("after re-insert"); }
+			r.distinct++;
+		} catch(const Violation &v) { r.add_violation(v, h); }
+		catch(const Panic &p) { r.add_violation({"C09", "panic:radix:deep", p.text}, h); }
+	}
+	pending().reset();
+	r.samples.push_back("full-depth paths (16 keys, 4 insertion orders), sparse sets, full leaves and full inner nodes: find / absent neighbours / iteration after every insert, erase and re-insert");
+	r.states = r.distinct; r.transitions = r.evaluations;
+	return r;
+}
+
 static std::vector<Instance> instances(const std::string &tier) {
 	bool th = tier == "thorough";
 	std::vector<std::vector<uint64_t>> subs;
@@ -267,6 +318,9 @@ static std::vector<Instance> instances(const std::string &tier) {
 	}
 	{ Instance e; e.name = "radix-erase-while-iterating"; e.run = [](const std::vector<CrashInfo> &) { return filtering_walk(); };
 	  e.replay = [](const std::string &) { InstResult r = filtering_walk(); for(auto &x : r.violations) printf("REPLAY-VIOLATION property=%s sig=%s: %s\n", x.prop.c_str(), x.sig.c_str(), x.msg.c_str()); return (int)r.violations.size(); };
+	  v.push_back(e); }
+	{ Instance e; e.name = "radix-deep-and-wide"; e.run = [](const std::vector<CrashInfo> &) { return deep_trees(); };
+	  e.replay = [](const std::string &) { InstResult r = deep_trees(); for(auto &x : r.violations) printf("REPLAY-VIOLATION property=%s sig=%s: %s\n", x.prop.c_str(), x.sig.c_str(), x.msg.c_str()); return (int)r.violations.size(); };
 	  v.push_back(e); }
 	{ Instance e; e.name = "radix-default-insert-trivial"; e.run = [](const std::vector<CrashInfo> &) { return default_insert(); };
 	  e.replay = [](const std::string &) { InstResult r = default_insert(); for(auto &x : r.violations) printf("REPLAY-VIOLATION property=%s sig=%s: %s\n", x.prop.c_str(), x.sig.c_str(), x.msg.c_str()); return (int)r.violations.size(); };
